@@ -196,7 +196,7 @@ func doDump(P *Program, what string) {
 			return
 		}
 		var reasons []rejReason
-		collectRejections(P, f, 0, map[*ssa.Function]bool{}, &reasons)
+		collectRejections(P, f, 0, map[string]bool{}, &reasons)
 		for _, r := range reasons {
 			fmt.Printf("%-55s %-6s %s   @%s\n", r.fn, r.kind, r.text, r.pos)
 		}
